@@ -31,7 +31,8 @@ RULE = ('1–3 helper calls per case, each on fresh real streams over the first 
         'calls; every collection of streams is passed as list / tuple / generator / iter / map (list / tuple where the '
         'helper indexes it), chemical collections as tuple / list / bare string; in 20–25 % of the mix_and_split / '
         'mix_and_split_with_moisture_content calls the bottom outlet was created under an equivalent property package with the '
-        'chemicals in another order; 10 % of the cases are holder histories: ONE MultiStream passed as multi_stream= to 2–5 successive lle '
+        'chemicals in another order; in 20 % of the mix_and_split calls both outlets are MultiStreams (g, l) still holding '
+        'material in both phases while the feed is liquid only (or has one gas-carrying MultiStream inlet); 10 % of the cases are holder histories: ONE MultiStream passed as multi_stream= to 2–5 successive lle '
         '(or vle) calls with different feeds / efficiencies / top chemicals, and single calls get a pre-filled holder in '
         '~25 % of the lle/vle ops; split vectors j/64; K = 2^e·(1+j/8) within 1e-3…1e3 (all-below-1, all-above-1, exactly-1 and mixed '
         'sets; 12 % of the partition calls with chemicals to force put every K on one side of 1 and force material only into '
@@ -250,6 +251,21 @@ def op_ms(d, o):
         ins = [mk(n, f) for f in d['ins']]
         top, bottom = mk(n, top0), mk(n, bot0)
         if d.get('perm_bot') and n >= 2: bottom = mk_perm(n, bot0)      # outlet under an equivalent package, other order
+        if d.get('ms_out'):
+            # both outlets are MultiStreams (phases g, l) that still hold material in BOTH phases from an earlier call;
+            # the inlets of this call may be liquid only: every phase row of the outlets must be rewritten
+            def ms_out(rows):
+                m = tmo.MultiStream(None, phases='gl', thermo=THERMO[n])
+                if rows:
+                    m.imol['l'] = np.array(list(rows)[:n] + [0.] * (n - len(rows)), float)
+                    m.imol['g'] = np.array(list(reversed(list(rows)[:n])) + [0.] * (n - len(rows)), float)
+                return m
+            top, bottom = ms_out(top0), ms_out(bot0)
+            if d.get('gas_in'):      # one inlet is a MultiStream carrying a gas row next to its liquid row
+                g = d['gas_in']
+                m = tmo.MultiStream(None, phases='gl', thermo=THERMO[n])
+                m.imol['l'] = np.array([x - y for x, y in zip(d['ins'][0], g)], float); m.imol['g'] = np.array(g, float)
+                ins[0] = m
         # aliasing: an outlet object is also one of the inlets (mix_and_split is alias-safe: the mixed flow is
         # computed before any outlet is written)
         if d.get('alias_top') is not None: top = ins[d['alias_top'] % len(ins)]
@@ -274,6 +290,7 @@ def op_ms(d, o):
     o.tags.append('ms' + (':aliased' if d.get('alias_top') is not None or d.get('alias_bot') is not None else ''))
     o.tags.append('rep:ins:' + (d.get('rep') or 'list'))
     if d.get('perm_bot') and n >= 2: o.tags.append('ms:outlet-other-package-order')
+    if d.get('ms_out'): o.tags.append('ms:multistream-outlets' + (':gas-inlet' if d.get('gas_in') else ':liquid-only-feed'))
 
 
 def op_am(d, o):
@@ -1221,6 +1238,10 @@ def gen_op(rng):
         if d.get('alias_top') is not None and d.get('alias_top') == d.get('alias_bot'): del d['alias_bot']
         d['rep'] = rng.choice(STREAM_REPS)
         if d.get('alias_bot') is None and rng.random() < 0.25: d['perm_bot'] = 1
+        if d.get('alias_top') is None and d.get('alias_bot') is None and not d.get('perm_bot') and rng.random() < 0.2:
+            d['ms_out'] = 1          # MultiStream outlets (g, l) holding material in both phases from an earlier call
+            if rng.random() < 0.4:   # part of the first inlet enters as gas (a quarter of each flow: stays dyadic)
+                d['gas_in'] = [x / 4 for x in d['ins'][0]]
         return 'ms ' + json.dumps(d)
     if r < 0.535:                                     # mix_and_split_with_moisture_content
         n = max(n, 2)
